@@ -155,6 +155,9 @@ func main() {
 			if len(altCtx) > 0 {
 				r.Extra["configurations"] = []string{"linux/amd64", "windows/amd64", "linux/386"}
 			}
+			if *tier == "thorough" && rp == nil {
+				runSelfTest(abs, *verif, r)
+			}
 			if *emit {
 				for _, o := range r.Obs {
 					if o.Verdict == Violation {
